@@ -232,6 +232,23 @@ var fixedSets = []func() *routeSet{
 				{"GET", "", "/./x"}, {"GET", "", "/../x"}, {"GET", "", "/u/./../"}, {"GET", "", "/s/a/./b/t/3"}, {"GET", "", "/s/a//b/t/.."},
 				{"GET", "h.q", "/r/../s/e"}, {"GET", "", "/a%2Fb/x"}, {"GET", "", "/u/%2e/%2E/"}, {"GET", "h.q:80", "/a%2Fb/./e"}}}
 	},
+	// Hosts that are not hostnames (containing '/', empty, ':' only ...) x dot-segment paths, on a tree with hostname
+	// routes: a Host containing '/' skips the hostname pass (node.go:96-104; Guard.host_guard in the model).
+	// Thorough seed 1 once drew Host "example.x/a", path "/./": served by /*{w}/, not by example.{h}/*{v}.
+	func() *routeSet { return oddHostSet(false) },
+	func() *routeSet { return oddHostSet(true) },
+}
+
+func oddHostSet(ignoreTS bool) *routeSet {
+	rs := &routeSet{kind: "witness", methods: []string{"GET"}, ignoreTS: ignoreTS,
+		entries: []entry{{"GET", "{g}.b/b/*{v}/a"}, {"GET", "/*{w}/"}, {"GET", "example.{h}/*{v}"}, {"GET", "/"},
+			{"GET", "/a/{y}/"}, {"GET", "/ab{y}"}, {"GET", "a{h}.a{h}.a/*{w}/ab/{y}/"}}}
+	for _, h := range []string{"example.x/a", "/", "/x", "a/b", "example.x/", "x.b/b", "", ":", ":80", "example.x:", "example.x", "example.x/a:80", "[::1]/x"} {
+		for _, p := range []string{"/./", "/../", "/.", "/a/./", "/", "/b/./a", "/ab.", "/a/../"} {
+			rs.fixed = append(rs.fixed, [3]string{"GET", h, p})
+		}
+	}
+	return rs
 }
 
 // mixSeed scrambles the seed before it reaches hx.NewRand: NewRand's state is seed*G with G also the
@@ -453,7 +470,7 @@ func main() {
 				host = hx.Pick(rnd, []string{"unrelated.org", "x.y.z:80", "a", "127.0.0.1:8080"})
 				hostKind = "unrelated"
 			case k < 10 && anyHost:
-				host = hx.Pick(rnd, []string{"[::1]", "::1", "[::1]:8080", "[fe80::1%eth0]", "a:b:80", "a.b:", ":80"})
+				host = hx.Pick(rnd, []string{"[::1]", "::1", "[::1]:8080", "[fe80::1%eth0]", "a:b:80", "a.b:", ":80", ":", "/", "a/b", "example.x/a", "a.b/a:80"})
 				hostKind = "ipv6-or-odd"
 			case k < 11 && host != "":
 				host = rt.PerturbHost(rnd, host)
